@@ -20,6 +20,55 @@ pub struct Emit<'a> {
     pub out: &'a mut dyn Write,
     pub cases: usize,
     pub accepted: usize,
+    /// source spec of the current grammar
+    pub src: String,
+}
+
+/// A crash of the real code (the parser runs in-process) is reported with the input it happened on:
+/// every case notes its spec in a static buffer, a handler for SIGSEGV/SIGBUS/SIGABRT/SIGFPE/SIGILL writes
+/// the buffer to `<ops-file>.crash` and exits.
+mod crash {
+    extern "C" {
+        fn signal(sig: i32, handler: extern "C" fn(i32)) -> usize;
+        fn open(path: *const u8, flags: i32, mode: u32) -> i32;
+        fn write(fd: i32, buf: *const u8, n: usize) -> isize;
+        fn _exit(code: i32) -> !;
+    }
+    static mut BUF: [u8; 8192] = [0; 8192];
+    static mut LEN: usize = 0;
+    static mut PATH: [u8; 1024] = [0; 1024];
+
+    extern "C" fn on_crash(sig: i32) {
+        unsafe {
+            let fd = open(core::ptr::addr_of!(PATH) as *const u8, 0o1101 /* O_WRONLY|O_CREAT|O_TRUNC */, 0o644);
+            if fd >= 0 {
+                let head = [b's', b'i', b'g', b'0' + (sig / 10) as u8, b'0' + (sig % 10) as u8, b' '];
+                write(fd, head.as_ptr(), head.len());
+                write(fd, core::ptr::addr_of!(BUF) as *const u8, LEN);
+            }
+            _exit(139);
+        }
+    }
+
+    pub fn install(ops_path: &str) {
+        let p = format!("{ops_path}.crash");
+        let _ = std::fs::remove_file(&p);
+        unsafe {
+            let n = p.len().min(1023);
+            core::ptr::copy_nonoverlapping(p.as_ptr(), core::ptr::addr_of_mut!(PATH) as *mut u8, n);
+            for sig in [11, 7, 6, 8, 4] {
+                signal(sig, on_crash);
+            }
+        }
+    }
+
+    pub fn note(s: &str) {
+        unsafe {
+            let n = s.len().min(8191);
+            core::ptr::copy_nonoverlapping(s.as_ptr(), core::ptr::addr_of_mut!(BUF) as *mut u8, n);
+            LEN = n;
+        }
+    }
 }
 
 fn toks_str(toks: &[usize]) -> String {
@@ -37,6 +86,7 @@ impl Emit<'_> {
 
     pub fn grammar_header(&mut self, gid: &str, kind: &str, src: &str, lang: &Lang, terms: Option<&[Term]>, optable: Option<&OpTable>, exh: usize) {
         let g: Value = serde_json::from_str(&lang.built.grammar_json).unwrap();
+        self.src = src.to_string();
         writeln!(self.out, "grammar {gid} {kind}").unwrap();
         writeln!(self.out, "src {src}").unwrap();
         writeln!(self.out, "gjson {}", serde_json::to_string(&g).unwrap()).unwrap();
@@ -54,10 +104,21 @@ impl Emit<'_> {
             writeln!(self.out, "exh {exh}").unwrap();
         }
         writeln!(self.out, "ready").unwrap();
+        // (should the real parser crash later, everything up to here is on disk)
+        self.out.flush().unwrap();
     }
 
     /// Parse `text` with the real parser and emit one case.
     pub fn case(&mut self, cid: &str, parser: &mut Parser, text: &[u8], toks: Option<&[usize]>) -> bool {
+        // should the real parser crash on this input, the signal handler reports it as the failing case
+        crash::note(&format!(
+            "{cid} {} {}",
+            self.src,
+            match toks {
+                Some(t) => format!("t:{}", t.iter().map(|i| i.to_string()).collect::<Vec<_>>().join(",")),
+                None => format!("x:{}", if text.is_empty() { "-".to_string() } else { hex(text) }),
+            }
+        ));
         let tree = match parser.parse(text, None) {
             Some(t) => t,
             None => return false,
@@ -338,7 +399,8 @@ fn main() {
     let mut cu = CUnit::start();
     let seed = seed_from_env();
     let thorough = tier_is_thorough();
-    let mut em = Emit { out: &mut file, cases: 0, accepted: 0 };
+    crash::install(&out_path);
+    let mut em = Emit { out: &mut file, cases: 0, accepted: 0, src: String::new() };
     let mut stats = Stats::default();
 
     if args.get(2).map(|s| s == "--spec").unwrap_or(false) {
